@@ -91,9 +91,9 @@ PROPS = {
              "reference; non-trivial = a value needing >= 2 octets, or a string that is truncated, over-long or non-canonical; distinct by value/string",
         assumptions=COMMON_ASSUME + ["buffers are presented with used == size, so 'end of the buffer' is unambiguous"],
         targets=[
-            enum("enum", ["props/C14_enum.cpp"], qs=12, ts=16),
-            vg(["props/C14_enum.cpp"]), dbg(["props/C14_enum.cpp"]),
-            enum("fast", ["props/C14_enum.cpp"], qs=0, ts=16, lib="fast", cxxflags=["-DVP_FAST", "-O2"]),
+            enum("enum", ["props/C14_enum.cpp", "shims/pp_probes.c", "shims/varint_static.c"], qs=12, ts=16),
+            vg(["props/C14_enum.cpp", "shims/pp_probes.c", "shims/varint_static.c"]), dbg(["props/C14_enum.cpp", "shims/pp_probes.c", "shims/varint_static.c"]),
+            enum("fast", ["props/C14_enum.cpp", "shims/pp_probes.c", "shims/varint_static.c"], qs=0, ts=16, lib="fast", cxxflags=["-DVP_FAST", "-O2"]),
         ],
     ),
     "C15": dict(
@@ -110,6 +110,9 @@ PROPS = {
             enum("uchar", ["props/C15_enum.cpp", "shims/bf_table.c"], qs=4, ts=16, cflags=["-funsigned-char"], cxxflags=["-DVP_LIGHT"]),
             enum("Os", ["props/C15_enum.cpp", "shims/bf_table.c"], qs=4, ts=16, cflags=["-Os"], cxxflags=["-DVP_LIGHT"]),    # size-optimised builds define __OPTIMIZE_SIZE__ (what firmware is usually built with)
             enum("O3", ["props/C15_enum.cpp", "shims/bf_table.c"], qs=4, ts=16, cflags=["-O3"], cxxflags=["-DVP_LIGHT"]),   # the ABI of most embedded targets: plain char is unsigned   # accessors compiled without optimisation: locals live in (poisoned) stack slots
+            enum("platform", ["props/C15_enum.cpp", "shims/bf_table_platform.c"], qs=4, ts=16, cxxflags=["-DVP_LIGHT"]),   # the C callers' translation unit has seen Zephyr/Linux-style BIT(), BIT_MASK(), MIN()... before the ufw headers
+            enum("embedded", ["props/C15_enum.cpp", "shims/bf_table.c"], qs=2, ts=8, lib="embedded", noswap=True, cxxflags=["-DVP_LIGHT"]),
+            enum("gcc", ["props/C15_enum.cpp", "shims/bf_table.c"], qs=2, ts=8, lib="gcc", cxxflags=["-DVP_LIGHT"]),
             enum("fast", ["props/C15_enum.cpp", "shims/bf_table.c"], qs=0, ts=16, lib="fast", cxxflags=["-DVP_FAST", "-O2"], cflags=["-O2"]),
             enum("alias", ["props/C15_alias_enum.cpp", "shims/bf_alias.c", "shims/bf_const.c"], qs=2, ts=4, lib="fast", cxxflags=["-O2"], cflags=["-O2", "-fstrict-aliasing"]),   # typed stores by the caller, optimised build without sanitizers
         ],
@@ -121,7 +124,7 @@ PROPS = {
              "boundaries, garbage prefix + delimiter + 3 frames, error injection at every position; non-trivial = payload containing END or ESC, or a garbage prefix that leaves "
              "the decoder in a non-initial state (ends in ESC, invalid escape, no start octet); distinct by string",
         assumptions=COMMON_ASSUME + ["resynchronisation oracle: delivered frames are attributed by the source offset at which the decode call ends (DESIGN section 3)"],
-        targets=[enum("enum", ["props/C12_enum.cpp"], qs=12, ts=16), vg(["props/C12_enum.cpp"]), dbg(["props/C12_enum.cpp"], cxxflags=["-DVP_LIGHT"])],
+        targets=[enum("enum", ["props/C12_enum.cpp", "shims/pp_probes.c"], qs=12, ts=16), vg(["props/C12_enum.cpp", "shims/pp_probes.c"]), dbg(["props/C12_enum.cpp", "shims/pp_probes.c"], cxxflags=["-DVP_LIGHT"])],
     ),
     "C17": dict(
         level="exploration",
@@ -226,7 +229,7 @@ PROPS = {
              "doc/regp.txt + the library's own receiver reports identical fields; non-trivial = a frame with payload (rich in SLIP control octets) or a non-zero response code, or a length "
              "across a varint boundary; distinct by the serialised case",
         assumptions=COMMON_ASSUME + ["the reference encoder follows doc/regp.txt; where the document is silent (block-size field of payload-less responses) it follows the library's emitter"],
-        targets=[enum("enum", ["props/C08_enum.cpp"], qs=8, ts=16), vg(["props/C08_enum.cpp"]), dbg(["props/C08_enum.cpp"]), enum("noswap", ["props/C08_enum.cpp"], qs=4, ts=8, lib="noswap", noswap=True)],
+        targets=[enum("enum", ["props/C08_enum.cpp", "shims/pp_probes.c"], qs=8, ts=16), vg(["props/C08_enum.cpp", "shims/pp_probes.c"]), dbg(["props/C08_enum.cpp", "shims/pp_probes.c"]), enum("noswap", ["props/C08_enum.cpp", "shims/pp_probes.c"], qs=4, ts=8, lib="noswap", noswap=True)],
     ),
     "C06": dict(
         level="exploration",
@@ -272,23 +275,22 @@ PROPS = {
 
 # Every property is also checked against the library compiled the other ways the build offers: derived from each property's `assert` target(s)
 # (same sources, same light flags), unless the property already has a target for that library variant.
-#   noswap: documented option UFW_USE_BUILTIN_SWAP off;  freestanding: -ffreestanding (C sources of the harness too);  O2: -O2, no sanitizer;
-#   uchar: -funsigned-char;  regopts (register table only): REGISTER_TABLE_WITH_NAMES + REGISTER_TABLE_WITH_AREA_USER_DATA
+#   embedded: -funsigned-char -fshort-enums -ffreestanding -std=c99, UFW_USE_BUILTIN_SWAP off, both register-table layout options on
+#             (a bare-metal ARM EABI configuration, all at once);   O2: -O2, no sanitizer;   gcc: library and C callers compiled by gcc -O2
 def _derive_variants():
     import copy
     for pid, P in PROPS.items():
         have = {t.get("lib", "asan") for t in P["targets"]}
-        templates = [t for t in P["targets"] if t.get("lib") == "assert"]
         names = {t["name"] for t in P["targets"]}
-        for variant, lib in (("noswap", "noswap"), ("freestanding", "freestanding"), ("O2", "fast"), ("uchar", "uchar"), ("regopts", "regopts")):
-            if lib in have or variant in names or (variant == "regopts" and pid not in ("C01", "C02", "C03", "C04", "C05")) or \
-                    (variant == "noswap" and pid > "C11"):   # the byte-swap option only reaches code that uses the endian codecs
+        templates = [t for t in P["targets"] if t.get("lib") == "assert"]
+        for variant, lib in (("embedded", "embedded"), ("O2", "fast"), ("gcc", "gcc")):
+            if lib in have or variant in names:
                 continue
             for t in templates:
                 d = copy.deepcopy(t)
                 d["name"] = t["name"].replace("assert", variant)
                 d["lib"] = lib
-                if variant == "noswap":
+                if variant == "embedded":
                     d["noswap"] = True
                 d["quick"] = dict(d["quick"], shards=2, of=12)       # a sixth of the work: shard 0 carries the fixed phases
                 d["thorough"] = dict(d["thorough"], shards=4, of=16)
@@ -299,6 +301,32 @@ def _derive_variants():
 
 
 _derive_variants()
+
+# ambient state of the calling process: the floating-point environment (register values and constraints, float codecs) and the locale (s-expressions)
+def _ambient():
+    for pid in ("C01", "C02", "C03", "C04", "C05", "C15"):
+        P = PROPS[pid]
+        main = P["targets"][0]
+        byname = {t["name"]: t for t in P["targets"]}
+        cases = dict(cases=max(100, main["quick"].get("cases", 0) // 2)) if main.get("rapidcheck") else {}
+        def amb(name, of, env):
+            d = dict(name=name, binary_of=of["name"], sources=of["sources"], lib=of.get("lib", "asan"), env=env,
+                     quick=dict(of["quick"], shards=1, of=12, **cases), thorough=dict(of["thorough"], shards=2, of=16))
+            for k in ("rapidcheck", "link", "valgrind"):
+                if k in of:
+                    d[k] = of[k]
+            P["targets"].append(d)
+        amb("fp-ftz-up", main, {"VP_FPENV": "ftz up"})
+        g = byname.get("gcc") or byname.get("rc-gcc")
+        if g:
+            amb("gcc-fp-ftz-down", g, {"VP_FPENV": "ftz down"})
+    P = PROPS["C20"]
+    main = P["targets"][0]
+    P["targets"].append(dict(name="locale-tr", binary_of=main["name"], sources=main["sources"], lib="asan", env={"VP_LOCALE": "tr_TR.ISO-8859-9"},
+                             quick=dict(shards=2, of=12), thorough=dict(shards=4, of=16)))
+
+
+_ambient()
 
 # ... and once with the whole run happening before main() is entered (VP_MAIN in support/vp.hpp): the main enum target's binary, one shard
 for _pid, _P in PROPS.items():
